@@ -3,6 +3,7 @@ package main
 import (
 	"fmt"
 	"go/types"
+	"net"
 	"strings"
 
 	"golang.org/x/tools/go/ssa"
@@ -425,6 +426,13 @@ func (in *Interp) strEq(x, y *StrV) *Term {
 func (in *Interp) opaqueEq(x, y *StrV) *Term {
 	tc := in.tc
 	if x.op == nil || y.op == nil {
+		op, plain := x, y
+		if x.op == nil {
+			op, plain = y, x
+		}
+		if r, ok := in.opaqueVsPlain(op, plain); ok {
+			return r
+		}
 		// an opaque token compared with a plain string: cannot decide
 		in.unsupported("comparison of opaque formatted string with plain string")
 	}
@@ -524,4 +532,54 @@ func (in *Interp) valueString(v Value) string {
 		return v.t.String() + ":" + in.valueString(v.v)
 	}
 	return fmt.Sprintf("%T", v)
+}
+
+// opaqueVsPlain decides equality of an injective token with a concrete string
+// by parsing the string back into the token's arguments.
+func (in *Interp) opaqueVsPlain(op, plain *StrV) (*Term, bool) {
+	cs, ok := plain.Concrete()
+	if !ok {
+		return nil, false
+	}
+	tc := in.tc
+	mk := func(b []byte) *StrV {
+		ts := make([]*Term, len(b))
+		for i := range b {
+			ts[i] = tc.BV(8, uint64(b[i]))
+		}
+		return &StrV{b: ts}
+	}
+	switch op.op.kind {
+	case "ipnet":
+		_, n, err := net.ParseCIDR(cs)
+		if err != nil || n.String() != cs {
+			return tc.tFalse, true
+		}
+		ipArg, maskArg := op.op.args[0].(*StrV), op.op.args[1].(*StrV)
+		ip := []byte(n.IP)
+		if len(ipArg.b) == 4 {
+			if v4 := n.IP.To4(); v4 != nil {
+				ip = v4
+			}
+		}
+		return tc.And(in.strEq(ipArg, mk(ip)), in.strEq(maskArg, mk(n.Mask))), true
+	case "ipstr":
+		ip := net.ParseIP(cs)
+		if ip == nil || ip.String() != cs {
+			return tc.tFalse, true
+		}
+		arg := op.op.args[0].(*StrV)
+		b := []byte(ip)
+		if len(arg.b) == 4 {
+			v4 := ip.To4()
+			if v4 == nil {
+				return tc.tFalse, true
+			}
+			b = v4
+		} else if ip.To4() != nil {
+			return tc.tFalse, true // a 16-byte non-mapped token never prints as dotted quad
+		}
+		return in.strEq(arg, mk(b)), true
+	}
+	return nil, false
 }
